@@ -39,6 +39,27 @@ claimed = {
          "what is committed is exactly what the message's Encode produced, at exactly the reserved region (in-place path) or exactly the scratch bytes (wrap path), so the ring receives whole encoded packets; on an error before the commit nothing is committed. "
          "That Encode produces a complete well-formed packet of Len() bytes is C03 per type (assumed at the Message interface). Not covered: per-publisher ordering across goroutines (a schedule property)."),
    design='DESIGN.md §4 C17', technique='contracts with call-site obligations (atcall) and ghost ordering, VCs over go/ssa, z3/cvc5 (govc)'),
+ 'C02': dict(level='proof',
+   text=("Contract-based deductive proof of the per-packet mechanism the property rests on (core; the composition over whole histories is argued in DESIGN.md, not machine-checked). Against a ghost log of the packets a connection sends "
+         "(per packet type: count and last identifier, defined at writeMessage) and of the messages it hands on (onPublish): processPublish answers QoS 1 with exactly one PUBACK and QoS 2 with exactly one PUBREC carrying the received identifier "
+         "(or a write failed), hands a QoS 0/1 message on exactly once and a QoS 2 message never, and stores the QoS 2 message in the incoming queue; processIncoming answers PUBREL with exactly one PUBCOMP and PUBREC with exactly one PUBREL of the same identifier, "
+         "and sends those packets for no other packet type; processAcked, per entry the queue releases (loop step contracts): an entry in state PUBREL is handed on exactly once unless an error is logged, no other entry is ever handed on, and what is handed on "
+         "was decoded from exactly the bytes stored for that entry. That the stored bytes are a private copy of the original PUBLISH, that duplicates are not inserted twice and that entries are released once in FIFO order is the ack-queue proof (C13), which is part of this check. "
+         "Assumed (listed in evidence): subscriber callbacks send only PUBLISH packets and leave the list being processed and the bytes of the packet being processed alone; interface-level contracts of message.Message; processSubscribe's frame."),
+   design='DESIGN.md §4 C02', technique='ghost-log contracts, call-site obligations and per-iteration loop contracts; VCs over go/ssa discharged by z3/cvc5 (govc)'),
+ 'C12': dict(level='proof',
+   text=("Contract-based deductive proof of the sender-side mechanism (core; client API wrappers subscribe/unsubscribe/ping and the composition over schedules are not machine-checked). service.publish writes exactly one PUBLISH and then registers a QoS 1 request in the "
+         "QoS 1 queue and a QoS 2 request in the QoS 2 queue with its completion callback (a QoS 0 request completes at once, exactly one callback); processIncoming answers every PUBREC with exactly one PUBREL of the same identifier and sends PUBREL for nothing else; "
+         "processAcked, per entry an ack queue releases (per-iteration loop contracts): the entry's completion callback is invoked exactly once unless an error is logged, and only entries in a terminal state are released at all (FIFO release after the last ack, once, is the ack-queue proof C13, part of this check). "
+         "Automatically assigned packet identifiers are never 0 (C03 contracts of Encode, part of this check). "
+         "KNOWN FINDING KF-C12-1 (open, see known_findings.json): publish registers the request after writing it, so an acknowledgement processed in that window is lost and the completion never fires; the obligation 'registered-before-sent' fails exactly there and is reported as KNOWN-FINDING. "
+         "Pairwise distinctness of the identifiers of forwarded PUBLISH packets in flight is not covered (no contract states it)."),
+   design='DESIGN.md §4 C12', technique='ghost-log contracts, call-site obligations and per-iteration loop contracts; VCs over go/ssa discharged by z3/cvc5 (govc)'),
+ 'C19': dict(level='proof',
+   text=("Contract-based deductive proof of the two mechanisms the property rests on (core; real time and the behaviour of net.Conn deadlines are outside any contract): the receiver goroutine reads the socket only through a timeoutReader whose "
+         "deadline is exactly keep-alive + keep-alive/5 seconds (K <= d <= 1.5 K) and timeoutReader.Read re-arms the read deadline before every single socket read (ghost 'armed' flag consumed by the read), so a client silent for d fails the read; "
+         "processIncoming answers every PINGREQ with exactly one PINGRESP (or a write failed) and sends PINGRESP for nothing else. Not covered: where the keep-alive value comes from (handleConnection) and that the failed read leads to the will being published (teardown, see C09)."),
+   design='DESIGN.md §4 C19', technique='ghost-state contracts and call-site obligations; VCs over go/ssa discharged by z3/cvc5 (govc)'),
  'C04': dict(level='proof',
    text=("Contract-based deductive proof: every index, slice (also against len, not only cap: 'strictslice'), nil, conversion and overflow obligation in every Decode path is generated with no annotation and discharged; "
          "contracts add 0<=n<=len(src), every returned field lies within src[:n], loop variants (termination), and acceptance of every well-formed packet (for SUBSCRIBE/UNSUBSCRIBE against a caller-chosen ghost entry chain). Unbounded in input length and topic count."),
